@@ -26,9 +26,9 @@ from props import c19_source
 PID = 'C19'
 GENERATORS = [('endpoints2coq.py', 'Gen/AccessTable.v'), ('security2coq.py', 'Gen/SecurityGen.v')]
 META = {
-    'text': 'Coq: fe._static modelled function-for-function with the operating system (Path.resolve/is_dir/is_file, each may raise) as unconstrained Section oracles; proved for ALL oracles, request strings and roots: whatever is served is the very path that was checked, is a prefix-extension of a resolved root and a regular file (C19_contained), and files inside a root are served (non-vacuity). Access: allow-list, is_sanctioned decision and the endpoint registrations are regenerated from the Python source on every run (fail-closed translator, effect markers per handler); proved: an anonymous caller with certificates configured can only invoke allow-listed endpoints, those are GET-only, non-command, effect-free; a raising/missing hook denies; denied never invokes. Tied to the real code by correspondence on real directory trees with recorded OS answers and by driving every endpoint x verb x certificate x hook through the real twisted render path.',
-    'note': 'Trusted: Coq kernel; endpoints2coq.py translator (validated each run against the runtime resource tree: uris, methods, handler identities, routing); the recorder wrappers around pathlib.Path.resolve/is_dir/is_file; the fake twisted request/transport; canonical Path.resolve (OS). Not covered: Twisted URL decoding before render; the style-sheet inlining of the deprecated site after a file was accepted; TOCTOU between check and open. No axioms.',
-    'technique': 'Coq proof (all oracles) + source-generated tables + model/implementation correspondence + implementation-only oracle',
+    'text': 'Coq: fe._static modelled function-for-function with the operating system (Path.resolve/is_dir/is_file, each may raise) as unconstrained Section oracles; proved for ALL oracles, request strings and roots: whatever is served is the very path that was checked, is a prefix-extension of a resolved root and a regular file (C19_contained), and files inside a root are served (non-vacuity). Access: allow-list, is_sanctioned decision and the endpoint registrations are regenerated from the Python source on every run (fail-closed translator, effect markers per handler); proved: an anonymous caller with certificates configured can only invoke allow-listed endpoints, those are GET-only, non-command, effect-free; a raising/missing hook denies; denied never invokes. Source tie by translation (security2coq.py on pyfrag): security.is_sanctioned / sanctioned / identity, DynamicContent.__init__ (methods default), __render (certificate extraction, check BEFORE the handler, method test) and the render_<VERB> table are regenerated from the source on every run (Gen/SecurityGen.v) and PROVED equal to Model/Access.v / Gen/AccessTable.v for all arguments (C19_*_is_source); the generated definitions are validated on every run against the real functions and the real render path. Tied to the real code by correspondence on real directory trees with recorded OS answers and by driving every endpoint x verb x certificate x hook through the real twisted render path.',
+    'note': 'Trusted: Coq kernel; security2coq.py translator (+ pyfrag.py, pyfrag_fx.py; what stands for the hook lookup, the peer certificate and the pinned bookkeeping statements of __render is declared at the top of the script); endpoints2coq.py translator (validated each run against the runtime resource tree: uris, methods, handler identities, routing); the recorder wrappers around pathlib.Path.resolve/is_dir/is_file; the fake twisted request/transport; canonical Path.resolve (OS). Not covered: Twisted URL decoding before render; fe._static is not translated (break/continue and three raising OS calls inside the loop are outside the fragment): hand model + correspondence; the style-sheet inlining of the deprecated site after a file was accepted; TOCTOU between check and open. No axioms.',
+    'technique': 'Coq proof (all oracles) + source-generated tables + access decision translated from the source and proved equal to the model + model/implementation correspondence + implementation-only oracle',
 }
 
 COMMANDS = {'/api/cmd/run', '/api/cmd/reset', '/api/cmd/snapshot',
